@@ -35,6 +35,44 @@ type c10Variant struct {
 	Reason bool     `json:"reason"`
 	// Second, if set, adds a second directive to a line directive (Kind "ignore", Place > 0).
 	Second *c10Second `json:"second,omitempty"`
+	// Group: position of the directive inside its comment group. "": the only line (default);
+	// last2 / last3: last line after 1 / 2 ordinary comment lines; middle: between two ordinary
+	// lines; first: first line, followed by two ordinary lines; doc: last line of a doc comment of
+	// the declaration below; licence: last line of a licence-style header at the file top.
+	Group string `json:"group,omitempty"`
+	// Extra: the file also holds an unrelated stand-alone directive (naming only the disabled
+	// check) at its very end.
+	Extra bool `json:"extra,omitempty"`
+
+	detached bool // model reading "attached to no code line" for debatable group positions
+}
+
+// debatable: the line after the directive is a comment, not code ("the following line of
+// code"?); both readings are accepted, but the directive must not be dropped silently.
+func (v c10Variant) debatable() bool {
+	return v.Kind == "ignore" && (v.Group == "middle" || v.Group == "first")
+}
+
+const c10ExtraText = "//lint:ignore " + c10Disabled + " an unrelated stand-alone directive"
+
+// groupLines returns the comment group that carries the directive and the index of the directive in it.
+func (v c10Variant) groupLines() ([]string, int) {
+	d := v.text()
+	switch v.Group {
+	case "last2":
+		return []string{"// The next line is a linter directive.", d}, 1
+	case "last3":
+		return []string{"// An explanation of the code below,", "// which takes two lines.", d}, 2
+	case "middle":
+		return []string{"// An explanation of the code below.", d, "// More explanation after the directive."}, 1
+	case "first":
+		return []string{d, "// An explanation of the code below,", "// which takes two lines."}, 0
+	case "doc":
+		return []string{"// This declaration is documented: it does what its name says", "// and nothing else.", d}, 2
+	case "licence":
+		return []string{"// Copyright 2026 The Authors. All rights reserved.", "// Use of this source code is governed by a licence.", d}, 2
+	}
+	return []string{d}, 0
 }
 
 // c10Second is the second directive of a two-directive variant.
@@ -55,6 +93,12 @@ func (v c10Variant) key() string {
 		return fmt.Sprintf("%s/%s@%d", v.Base, v.Kind, v.Place)
 	}
 	k := fmt.Sprintf("%s/%s@%d/%s/%s", v.Base, v.Kind, v.Place, strings.Join(v.Names, ","), r)
+	if v.Group != "" {
+		k += "~" + v.Group
+	}
+	if v.Extra {
+		k += "~extra"
+	}
 	if v.Second != nil {
 		r2 := "reason"
 		if !v.Second.Reason {
@@ -137,12 +181,31 @@ func (v c10Variant) plan() (dirs []c10Dir, mapLine func(int) int) {
 		return nil, shiftFrom(1<<30, 0)
 	case v.Kind == "trailing":
 		return []c10Dir{{kind: "trailing", names: v.Names, reason: true, dirLine: v.Place, attached: v.Place, orig: v.Place}}, shiftFrom(1<<30, 0)
-	case v.Place == 0:
-		return []c10Dir{{kind: v.Kind, names: v.Names, reason: v.Reason, dirLine: 1, attached: 3, orig: 1}}, shiftFrom(1, 2)
-	case v.Place == -1:
-		return []c10Dir{{kind: v.Kind, names: v.Names, reason: v.Reason, dirLine: 3, attached: 5, orig: 3}}, shiftFrom(3, 2)
 	}
-	return []c10Dir{{kind: v.Kind, names: v.Names, reason: v.Reason, dirLine: v.Place, attached: v.Place + 1, orig: v.Place}}, shiftFrom(v.Place, 1)
+	g, at := v.groupLines()
+	n := len(g)
+	var d c10Dir
+	switch {
+	case v.Place == 0: // group, blank line, package clause
+		d = c10Dir{kind: v.Kind, names: v.Names, reason: v.Reason, dirLine: 1 + at, attached: n + 2, orig: 1}
+		mapLine = shiftFrom(1, n+1)
+	case v.Place == -1: // package clause, blank line, group, blank line
+		d = c10Dir{kind: v.Kind, names: v.Names, reason: v.Reason, dirLine: 3 + at, attached: 3 + n + 1, orig: 3}
+		mapLine = shiftFrom(3, n+1)
+	default:
+		d = c10Dir{kind: v.Kind, names: v.Names, reason: v.Reason, dirLine: v.Place + at, attached: v.Place + n, orig: v.Place}
+		mapLine = shiftFrom(v.Place, n)
+	}
+	if v.detached {
+		d.attached, d.orig = -1, -1
+	}
+	dirs = []c10Dir{d}
+	if v.Extra {
+		// appended after the last line of the file: blank line, directive
+		last := len(strings.Split(strings.TrimSuffix(c10BaseByName(v.Base).Dir, "\n"), "\n"))
+		dirs = append(dirs, c10Dir{kind: "ignore", names: []string{c10Disabled}, reason: true, dirLine: mapLine(last) + 2, attached: -1, orig: -1})
+	}
+	return dirs, mapLine
 }
 
 // render returns the directive file of the variant (still with "§" placeholders).
@@ -170,12 +233,24 @@ func (v c10Variant) render(b *c10Base) string {
 		default:
 			insert(v.Place, in+v.text(), in+v.secondText())
 		}
-	case v.Place == 0:
-		insert(1, v.text(), "")
-	case v.Place == -1:
-		insert(3, v.text(), "")
 	default:
-		insert(v.Place, indentOf(v.Place)+v.text())
+		g, _ := v.groupLines()
+		switch {
+		case v.Place == 0:
+			insert(1, append(g, "")...)
+		case v.Place == -1:
+			insert(3, append(g, "")...)
+		default:
+			in := indentOf(v.Place)
+			for i := range g {
+				g[i] = in + g[i]
+			}
+			insert(v.Place, g...)
+		}
+	}
+	if v.Extra {
+		// lines ends with the empty string that stands for the final newline
+		lines = append(lines[:len(lines)-1], "", c10ExtraText, "")
 	}
 	return strings.Join(lines, "\n")
 }
@@ -250,7 +325,7 @@ const c10TokMalformed = "MALFORMED-DIRECTIVE"
 
 // the token for an unmatched-directive report; two-directive variants say which comment
 func c10UnmatchedTok(v c10Variant, dirLine int) string {
-	if v.Second == nil {
+	if v.Second == nil && !v.Extra {
 		return c10TokUnmatched
 	}
 	return fmt.Sprintf("%s@%d", c10TokUnmatched, dirLine)
